@@ -96,3 +96,181 @@ func runC18Churn(run *ev.Run, idx int, seed int64) {
 		run.Distinct(fmt.Sprintf("churn|%d", idx%2))
 	}
 }
+
+// C18 tight churn: the owner's advertisement timer fires every few milliseconds while single advertised
+// listeners are opened and closed in quick succession, so that a timer run lands inside Close itself. Whatever
+// the interleaving of the withdrawal, the registry update and a timer run, nothing may stay listed afterwards.
+func runC18Tight(run *ev.Run, idx int, seed int64) {
+	rng := rand.New(rand.NewSource(seed))
+	c := mesh.DefaultConsts()
+	c.RouteUpdate = 300 * time.Millisecond
+	c.ServiceAd = time.Duration(2+idx%3) * time.Millisecond
+	c.Idle = time.Hour
+	m := mesh.New(c, seed)
+	defer m.Shutdown()
+	m.AddNode("to")
+	m.AddNode("tp")
+	m.Connect("to", "tp", 1, false)
+	o, p := m.Node("to").Inst(), m.Node("tp").Inst()
+	if !pollUntil(1500, func() bool {
+		_, ok := p.Status().RoutingTable["to"]
+		return ok
+	}) {
+		run.Eval(1)
+		run.Inconclusive("C18 tight churn: mesh did not form")
+		return
+	}
+	cycles := run.Pick(1200, 6000)
+	workers := 3
+	var wg sync.WaitGroup
+	for w := 0; w < workers; w++ {
+		wg.Add(1)
+		go func(w int, wseed int64) {
+			defer wg.Done()
+			wr := rand.New(rand.NewSource(wseed))
+			for i := 0; i < cycles/workers; i++ {
+				pc, err := o.ListenPacketAndAdvertise(fmt.Sprintf("t%d-%04d", w, i), map[string]string{"gen": "1"})
+				if err != nil {
+					continue
+				}
+				if wr.Intn(4) == 0 {
+					time.Sleep(time.Duration(wr.Intn(3000)) * time.Microsecond)
+				}
+				_ = pc.Close()
+			}
+		}(w, rng.Int63())
+	}
+	wg.Wait()
+	// bounded progress: a fixed number of (slow) rounds after the last close, then three looks
+	time.Sleep(400 * time.Millisecond)
+	left := map[string][]string{}
+	for try := 0; try < 4; try++ {
+		left = map[string][]string{}
+		for _, peer := range []string{"tp", "to"} {
+			for _, a := range m.Node(peer).Inst().Status().Advertisements {
+				if a.NodeID == "to" {
+					left[peer] = append(left[peer], a.Service)
+				}
+			}
+		}
+		if len(left) == 0 {
+			break
+		}
+		time.Sleep(300 * time.Millisecond)
+	}
+	run.Eval(1)
+	run.Count("tight_churn_open_close_cycles", int64(cycles/workers*workers))
+	if len(left) > 0 {
+		run.Violation("converge:extra:closed-during-advertisement-run", fmt.Sprintf("tight churn %d: %d advertised listeners were opened and closed in quick succession while the owner's advertisement timer ran every %v; well after the last close these closed services are still listed: %v", idx, cycles/workers*workers, c.ServiceAd, left), map[string]any{"still_listed": left})
+	} else {
+		run.Distinct(fmt.Sprintf("tight-churn|period=%v", c.ServiceAd))
+	}
+}
+
+// C18 relay restart: chain owner - relay - far. The far node has learned the owner's service; the relay is
+// restarted (it comes back knowing nothing of the owner's services, and the owner's next periodic advertisement
+// is far away); as soon as the relay is connected again the owner closes the service. The withdrawal has to get
+// through the relay although the relay has nothing to withdraw itself, and the far node must drop the service.
+func runC18RelayRestart(run *ev.Run, idx int, seed int64) {
+	rng := rand.New(rand.NewSource(seed))
+	c := mesh.DefaultConsts()
+	c.RouteUpdate = 300 * time.Millisecond
+	c.ServiceAd = time.Hour // periodic re-advertisement never helps within the trial
+	c.Idle = time.Hour
+	m := mesh.New(c, seed)
+	defer m.Shutdown()
+	ids := []string{"ro", "rr", "rf"}
+	if idx%2 == 1 {
+		ids = []string{"ro", "rr", "rs", "rf"} // two relays, the one next to the owner restarts
+	}
+	for _, id := range ids {
+		m.AddNode(id)
+	}
+	for i := 0; i+1 < len(ids); i++ {
+		m.Connect(ids[i], ids[i+1], 1, false)
+	}
+	far := ids[len(ids)-1]
+	o := m.Node("ro").Inst()
+	routed := func() bool {
+		_, ok := m.Node(far).Inst().Status().RoutingTable["ro"]
+		_, ok2 := o.Status().RoutingTable[far]
+		return ok && ok2
+	}
+	if !pollUntil(1500, routed) {
+		run.Eval(1)
+		run.Inconclusive("C18 relay restart: mesh did not form")
+		return
+	}
+	nsvc := 1 + rng.Intn(3)
+	pcs := []netceptor.PacketConner{}
+	for i := 0; i < nsvc; i++ {
+		pc, err := o.ListenPacketAndAdvertise(fmt.Sprintf("rs%d", i), map[string]string{"gen": "1"})
+		if err == nil {
+			pcs = append(pcs, pc)
+		}
+	}
+	listed := func(node string) int {
+		k := 0
+		for _, a := range m.Node(node).Inst().Status().Advertisements {
+			if a.NodeID == "ro" {
+				k++
+			}
+		}
+		return k
+	}
+	// advertisements are sent a few seconds after a listener opens (the owner's own timer): wait for the far node
+	if !pollUntil(3000, func() bool { return listed(far) >= len(pcs) }) {
+		run.Eval(1)
+		run.Inconclusive(fmt.Sprintf("C18 relay restart %d: the far node never learned the owner's %d services", idx, len(pcs)))
+		return
+	}
+	// restart the relay; documented epoch granularity: at least 1.1 s after its previous start
+	if d := time.Until(m.Node("rr").Started.Add(1100 * time.Millisecond)); d > 0 {
+		time.Sleep(d)
+	}
+	m.RestartNode("rr")
+	rr := m.Node("rr").Inst() // the new instance
+	relayUp := func() bool {
+		// the restarted instance itself reports sessions with both neighbours and routes to both ends,
+		// and both ends route through to each other
+		st := rr.Status()
+		conns := map[string]bool{}
+		for _, c := range st.Connections {
+			conns[c.NodeID] = true
+		}
+		_, r1 := st.RoutingTable["ro"]
+		_, r2 := st.RoutingTable[far]
+		return conns["ro"] && conns[ids[2]] && r1 && r2 && routed()
+	}
+	if !pollUntil(3000, relayUp) {
+		run.Eval(1)
+		run.Inconclusive(fmt.Sprintf("C18 relay restart %d: mesh did not re-form", idx))
+		return
+	}
+	time.Sleep(2*c.RouteUpdate + time.Duration(rng.Intn(300))*time.Millisecond)
+	if !relayUp() {
+		run.Eval(1)
+		run.Inconclusive(fmt.Sprintf("C18 relay restart %d: mesh not stable after the restart", idx))
+		return
+	}
+	relayKnew := listed("rr")
+	for _, pc := range pcs {
+		_ = pc.Close()
+	}
+	ok := pollUntil(1500, func() bool { return listed(far) == 0 && listed("rr") == 0 })
+	run.Eval(1)
+	run.Count("relay_restart_withdrawals", int64(len(pcs)))
+	if relayKnew == 0 {
+		run.Count("relay_restart_relay_had_no_entry_at_withdrawal", 1)
+	}
+	if !ok {
+		// was the path there all the time? (a withdrawal lost on a broken path is not this oracle's business)
+		if !routed() {
+			run.Inconclusive(fmt.Sprintf("C18 relay restart %d: route lost while waiting", idx))
+			return
+		}
+		run.Violation("converge:extra:withdrawal-through-restarted-relay", fmt.Sprintf("relay restart %d (chain %v): the far node had learned %d service(s) of ro, relay rr was restarted (it listed %d of them when they were closed), then ro closed them; 30 s later (route intact) they are still listed: far=%d relay=%d", idx, ids, len(pcs), relayKnew, listed(far), listed("rr")), nil)
+		return
+	}
+	run.Distinct(fmt.Sprintf("relay-restart|chain=%d|relay-knew=%v", len(ids), relayKnew > 0))
+}
